@@ -30,7 +30,6 @@ inductive PC where
   | ur (s : Nat)          -- inside unlock: read `s`
   | uw                    -- unlock: CAS -2 done, spinning on the dequeue
   | uc (x : Tid)          -- unlock: dequeued `x`, lock bit still set
-  | up (x : Tid)          -- unlock: bit cleared, `x` not yet in the run queue
   deriving DecidableEq, Repr
 
 structure St where
@@ -40,11 +39,12 @@ structure St where
   -- ghosts (not observable; updated at the steps that change what they describe)
   owner : Option Tid       -- who owns the lock bit
   anns : List Tid          -- announced (CAS +2 done) but not yet enqueued
-  woken : List Tid         -- dequeued by an unlocker, not yet pushed to a run queue
+  woken : List Tid         -- dequeued by an unlocker whose lock bit is still set
+  ready : List Tid         -- dequeued, bit cleared: the push to a run queue is pending
   uwf : Bool               -- the bit owner has done CAS -2 and not yet dequeued
 
 def init : St :=
-  { word := 0, q := [], pc := fun _ => .idle, owner := none, anns := [], woken := [], uwf := false }
+  { word := 0, q := [], pc := fun _ => .idle, owner := none, anns := [], woken := [], ready := [], uwf := false }
 
 inductive Lbl where
   | lockRead (t : Tid) (v : Nat)
@@ -60,14 +60,15 @@ inductive Lbl where
   | wakeSpin (t : Tid)
   | wakeDeq (t : Tid) (x : Tid)
   | clearBit (t : Tid)
-  | wakePush (t : Tid) (x : Tid)
+  | wakePush (x : Tid)
   deriving DecidableEq, Repr
 
-/-- the thread performing the access -/
+/-- the thread performing the access (for `wakePush`: the thread being pushed) -/
 def Lbl.actor : Lbl → Tid
   | .lockRead t _ | .lockCas1 t _ | .lockCas2 t _ | .blockBegin t | .cbEnq t | .tryRead t _
   | .tryCas t _ | .unlockRead t _ | .unlockCas2 t _ | .unlockCas0 t _ | .wakeSpin t
-  | .wakeDeq t _ | .clearBit t | .wakePush t _ => t
+  | .wakeDeq t _ | .clearBit t => t
+  | .wakePush x => x
 
 /-- one shared access.  `none` = this access (with this observed value) is impossible here. -/
 def step (s : St) : Lbl → Option St
@@ -138,15 +139,18 @@ def step (s : St) : Lbl → Option St
         | [] => none
       else none
   | .clearBit t =>
+      -- the unlock is complete for `t` at this point: when it runs inside the cond-wait callback
+      -- (on behalf of a suspended `t`), `t` itself may be resumed elsewhere before the push below
       match s.pc t with
       | .uc x =>
-          if s.word % 2 = 1 then some { s with word := s.word - 1, pc := upd s.pc t (.up x), owner := none }
+          if s.word % 2 = 1 then
+            some { s with word := s.word - 1, pc := upd s.pc t .idle, owner := none,
+                          woken := s.woken.erase x, ready := x :: s.ready }
           else none
       | _ => none
-  | .wakePush t x =>
-      if s.pc t = .up x then
-        some { s with pc := upd (upd s.pc x .lretry) t .idle, woken := s.woken.erase x }
-      else none
+  | .wakePush x =>
+      -- performed by the worker that dequeued `x`
+      if x ∈ s.ready then some { s with pc := upd s.pc x .lretry, ready := s.ready.erase x } else none
 
 /-- thread `t` owns the lock bit -/
 def ownsBit : PC → Bool
@@ -155,7 +159,7 @@ def ownsBit : PC → Bool
 
 /-- will certainly touch the mutex again without waiting for anybody -/
 def active : PC → Bool
-  | .lretry | .lr _ | .up _ => true
+  | .lretry | .lr _ => true
   | _ => false
 
 end MythVerif.Mutex
